@@ -2,6 +2,8 @@ import Proofs.LoadPerm
 import Proofs.LoadApiRun
 import Proofs.LoadClone
 import Proofs.LoadDomain
+import Proofs.LoadDecisions
+import Proofs.LoadPhrase
 import Gen.Sharing
 
 /-!
@@ -328,6 +330,156 @@ theorem resolves_of_plain (as : List AssocStmt) (hrel : (as.map (·.rel)).Nodup)
         omega
   have := key as 0 hrel hph n hn
   simpa using this
+
+/-! ### the open finding `api-phrased-direction`, as a proved statement about the model
+
+`MetaClass.new` relates the new instance by `relate(other_inst, inst, link.rel_id, link.phrase)` with the phrase of
+the link that STARTS at the new instance's class, while `_find_link` compares the phrase with the link that starts
+at the FIRST argument's class.  The statements below say exactly for which associations that resolves wrongly. -/
+
+/-- **phrased_direction_exact**: on a schema inside the domain (in particular: no two links of a class filed under
+    the same (class, relationship, phrase) key) the guard `resolves` of `api_equiv` holds for an association if and
+    only if its two ends carry the SAME phrase — so the API route is proved equal to the loader exactly on the
+    same-phrase associations, and ... -/
+theorem phrased_direction_exact (ss : List Stmt) (hd : inDomain ss = true) (n : Nat) (a : AssocStmt)
+    (hn : (popAssocs ss)[n]? = some a) :
+    ResolvesAt (popAssocs ss) n a ↔ a.srcPhrase = a.tgtPhrase :=
+  resolves_iff_same_phrase _ (linkKeysOk_of_inDomain ss hd) n a hn
+
+theorem phrased_direction_schema (ss : List Stmt) (hd : inDomain ss = true) :
+    (∀ n a, (popAssocs ss)[n]? = some a → ResolvesAt (popAssocs ss) n a) ↔
+      ∀ a ∈ popAssocs ss, a.srcPhrase = a.tgtPhrase :=
+  resolves_all_iff _ (linkKeysOk_of_inDomain ss hd)
+
+/-- ... a REFLEXIVE association can never be resolved (its two links are filed under the same classes and number,
+    so inside the domain its phrases differ); alone with its relationship number, every `relate` that `new` makes
+    for it connects the pair the wrong way round — the referred instance `j` as the referring one -/
+theorem phrased_direction_reflexive (m : Model) (hk : LinkKeysOk (m.assocs.map (·.1))) (n : Nat) (a : AssocStmt)
+    (L : Links) (hn : m.assocs[n]? = some (a, L)) (hrefl : a.srcKind = a.tgtKind)
+    (honly : ∀ k b, (m.assocs.map (·.1))[k]? = some b → b.rel = a.rel → k = n) (j i : Nat) :
+    ¬ ResolvesAt (m.assocs.map (·.1)) n a ∧
+    relate m a.tgtKind j a.srcKind i a.rel a.srcPhrase =
+      ({ m with assocs := updateAt m.assocs n (fun p => (p.1, (relateAt a L i j).1)) },
+       if (relateAt a L i j).2 then .ok else .relateError) :=
+  ⟨reflexive_not_resolved _ hk n a (by simp [hn]) hrefl, relate_reflexive_reversed m hk n a L hn hrefl honly j i⟩
+
+/-- ... and a NON-reflexive association with different phrases, alone with its relationship number, makes every
+    such `relate` raise UnknownLinkException (with another association of the same number between the same classes
+    the link can instead land on that one: `phrased_witness_twin`) -/
+theorem phrased_direction_unknown (m : Model) (n : Nat) (a : AssocStmt)
+    (hn : (m.assocs.map (·.1))[n]? = some a) (hnr : a.srcKind ≠ a.tgtKind) (hph : a.srcPhrase ≠ a.tgtPhrase)
+    (honly : ∀ k b, (m.assocs.map (·.1))[k]? = some b → b.rel = a.rel → k = n) (j i : Nat) :
+    relate m a.tgtKind j a.srcKind i a.rel a.srcPhrase = (m, .unknownLink) :=
+  relate_phrased_unknown m n a hn hnr hph honly j i
+
+/-! negation witnesses: three schemas inside the domain on which `new` and the loader differ -/
+
+/-- reflexive: P(2) refers to P(1) as its parent -/
+def phReflSchema : List Stmt :=
+  [ .cls "P" [("Id", .integer), ("Parent", .integer)],
+    .assoc ⟨"R1", "P", true, true, ["Parent"], "child", "P", false, true, ["Id"], "parent"⟩ ]
+def phReflOrder : List (String × List Val) := [("P", [.int 1, .int 0]), ("P", [.int 2, .int 1])]
+
+/-- **phrased_witness_reflexive**: the loader links row 1 (the child) to row 0 (its parent); `new` raises nothing
+    and links row 0 to row 1 — the reverse direction -/
+theorem phrased_witness_reflexive :
+    inDomain (phReflSchema ++ insertsOf phReflOrder) = true ∧
+    (apiBuild phReflSchema phReflOrder).2 = [.ok, .ok] ∧
+    ((buildCore (phReflSchema ++ insertsOf phReflOrder)).assocs.map (fun p => (p.2.tgt 0, p.2.tgt 1, p.2.src 0, p.2.src 1)))
+      = [([], [0], [1], [])] ∧
+    ((apiBuild phReflSchema phReflOrder).1.assocs.map (fun p => (p.2.tgt 0, p.2.tgt 1, p.2.src 0, p.2.src 1)))
+      = [([1], [], [], [0])] := by decide
+
+def phUnkSchema : List Stmt :=
+  [ .cls "A" [("Id", .integer), ("B_Id", .integer)], .cls "B" [("Id", .integer)],
+    .assoc ⟨"R1", "A", true, true, ["B_Id"], "owns", "B", false, true, ["Id"], "is owned by"⟩ ]
+def phUnkOrder : List (String × List Val) := [("B", [.int 1]), ("A", [.int 5, .int 1])]
+
+/-- **phrased_witness_unknown**: different phrases, non-reflexive: the loader links the pair, `new` raises
+    UnknownLinkException -/
+theorem phrased_witness_unknown :
+    inDomain (phUnkSchema ++ insertsOf phUnkOrder) = true ∧
+    (apiBuild phUnkSchema phUnkOrder).2 = [.ok, .unknownLink] ∧
+    ((buildCore (phUnkSchema ++ insertsOf phUnkOrder)).assocs.map (fun p => (p.2.tgt 0, p.2.src 0))) = [([0], [0])] ∧
+    ((apiBuild phUnkSchema phUnkOrder).1.assocs.map (fun p => (p.2.tgt 0, p.2.src 0))) = [([], [])] := by decide
+
+/-- two associations with the same number between the same classes, phrases crossed -/
+def phTwinSchema : List Stmt :=
+  [ .cls "A" [("Id", .integer), ("B1", .integer), ("B2", .integer)], .cls "B" [("Id", .integer)],
+    .assoc ⟨"R1", "A", true, true, ["B1"], "x", "B", false, true, ["Id"], "y"⟩,
+    .assoc ⟨"R1", "A", true, true, ["B2"], "y", "B", false, true, ["Id"], "x"⟩ ]
+def phTwinOrder : List (String × List Val) := [("B", [.int 1]), ("B", [.int 2]), ("A", [.int 5, .int 1, .int 2])]
+
+/-- **phrased_witness_twin**: nothing is raised, but each link lands on the OTHER association -/
+theorem phrased_witness_twin :
+    inDomain (phTwinSchema ++ insertsOf phTwinOrder) = true ∧
+    (apiBuild phTwinSchema phTwinOrder).2 = [.ok, .ok, .ok] ∧
+    ((buildCore (phTwinSchema ++ insertsOf phTwinOrder)).assocs.map (fun p => p.2.tgt 0)) = [[0], [1]] ∧
+    ((apiBuild phTwinSchema phTwinOrder).1.assocs.map (fun p => p.2.tgt 0)) = [[1], [0]] := by decide
+
+/-! ### the decisions of the batch loader, translated from the source (Gen/LoadDecisions.lean, by
+    translator/gen_loaddecisions.py): a changed null rule, key order or side choice breaks one of these -/
+
+/-- **null_rule_generated**: the model's `isNull` is the decision chain translated from `_is_null` (truthy -> not
+    null; None -> null; then by the upper-cased declared type: UNIQUE_ID -> value == 0, STRING -> len(value) == 0,
+    anything else not null) on every value that has the declared type of its attribute or is `None`. -/
+theorem null_rule_generated (ty : Ty) (v : Val) (h : v.hasTy ty = true ∨ v = .none) :
+    Pyx.Gen.LoadDecisions.isNull v.truthy v.isNone ty.upperChars v.eqZero v.lenZero = isNull v :=
+  isNull_eq_generated ty v h
+
+/-- the upper-cased names the translated rule compares with are the names the model's types are parsed from -/
+theorem null_rule_type_names (ty : Ty) : Ty.ofUpper ty.upperChars = some ty := ofUpper_upperChars ty
+
+/-- **lookup_key_generated** / **index_key_generated**: the model's two key computations are the translated
+    `compute_lookup_key` (over `key_map.items()`: null test and value on the referential attribute, component named
+    by the identifying attribute) and `compute_index_key` (over `key_map.values()`), both frozensets of pairs. -/
+theorem lookup_key_generated (a : AssocStmt) (s : Row) :
+    lookupKey a s = evalKey Pyx.Gen.LoadDecisions.lookupKey (keyMap a) s := lookupKey_eq_generated a s
+
+theorem index_key_generated (a : AssocStmt) (t : Row) :
+    indexKey (keyNames a) t = evalKey Pyx.Gen.LoadDecisions.indexKey (keyMap a) t := indexKey_eq_generated a t
+
+/-- **batch_direction_generated**: `populate_connections` indexes the instances of the referred (target) class by
+    the source link's index key, shares the index per (class, set of the source link's identifying attribute names),
+    and lets the instances of the referring (source) class probe it with the source link's lookup key — as
+    `hashJoin` / `connectAll` do. -/
+theorem batch_direction_generated :
+    Pyx.Gen.LoadDecisions.indexedSide = .target ∧ Pyx.Gen.LoadDecisions.probingSide = .source ∧
+    Pyx.Gen.LoadDecisions.cacheLink = .sourceLink ∧ Pyx.Gen.LoadDecisions.cacheNames = .values ∧
+    Pyx.Gen.LoadDecisions.indexKeyLink = .sourceLink ∧ Pyx.Gen.LoadDecisions.lookupKeyLink = .sourceLink :=
+  direction_eq_generated
+
+/-- **batch_connects_generated**: for a probing row `i` and a referred row `j` of its bucket the model makes exactly
+    the `connect` calls of the source, in their order, with their argument order and `check` flag, each decided by
+    the translated `Link.connect` (Gen/LinkDecisions.lean). -/
+theorem batch_connects_generated (a : AssocStmt) (L : Links) (i j : Nat) :
+    (⟨connect L.src j i, connect L.tgt i j⟩ : Links) =
+      Pyx.Gen.LoadDecisions.connects.foldl (fun L c => applyConnect a c L i j) L :=
+  connectStep_eq_generated a L i j
+
+/-- ... in particular a second match on a link that is not `many` is connected as well (`check=False`) -/
+theorem second_match_connected :
+    (∀ c ∈ Pyx.Gen.LoadDecisions.connects, c.2.2 = false) ∧
+    Pyx.Gen.LinkDecisions.connect false true false false = .mutate := by decide
+
+/-- **new_null_rule_generated**: the batch relate of `MetaClass.new` has its OWN null test (an expression over
+    `ref_value is None`, the upper-cased declared type, `ref_value == 0`, `ref_value == ''`); translated from the
+    source it is the model's `isNull` on every value of the attribute's declared type. -/
+theorem new_null_rule_generated (ty : Ty) (v : Val) (h : v.hasTy ty = true ∨ v = .none) :
+    Pyx.Gen.LoadDecisions.newIsNull v.isNone ty.upperChars v.eqZero v.lenZero = isNull v :=
+  newIsNull_eq_generated ty v h
+
+/-- **new_relate_generated**: the model's `relateLink` (one link of the batch relate of `new`) takes the translated
+    decisions: the link is attempted only if every name of `key_map.values()` was given; ONE null value drops the
+    whole link (`kwargs = None; break` — not just that value); the query maps the other class's key attribute to
+    the given value; an empty query relates nothing; and `relate` is called with the found instance first. -/
+theorem new_relate_generated (refs : List (String × Val)) (km : List (String × String))
+    (okind kind : String) (i : Nat) (rel phrase : String) (m : Model) :
+    relateLink refs km okind kind i rel phrase m =
+      relateLinkBy Pyx.Gen.LoadDecisions.newGivenNames Pyx.Gen.LoadDecisions.newOnNull
+        Pyx.Gen.LoadDecisions.newQueryName Pyx.Gen.LoadDecisions.newValueFrom refs km okind kind i rel phrase m ∧
+    Pyx.Gen.LoadDecisions.newRelateArgs = [.other, .inst, .relId, .phrase] :=
+  ⟨relateLink_eq_generated refs km okind kind i rel phrase m, newRelateArgs_eq_generated⟩
 
 /-- **phase_order** (over the generated table): `ModelLoader.populate` still runs the five phases in the order in
     which `Pyx.Load.buildCore` composes them — classes, identifiers, associations, instances, connections. -/
